@@ -71,18 +71,19 @@ SCHED_WRAPS := pthread_create pthread_join pthread_detach pthread_exit pthread_s
   pthread_mutex_init pthread_mutex_destroy pthread_mutex_lock pthread_mutex_trylock pthread_mutex_unlock \
   pthread_cond_init pthread_cond_destroy pthread_cond_wait pthread_cond_timedwait pthread_cond_signal pthread_cond_broadcast \
   sched_yield sleep usleep nanosleep sched_setaffinity pthread_setaffinity_np pthread_attr_init pthread_attr_destroy pthread_attr_setaffinity_np getenv sysconf clock \
-  walk_descents modify_factor cholesky_solve SuiteSparseQR_C_backslash_default cholmod_l_start cholmod_l_allocate_dense cholmod_l_copy_dense cholmod_l_sdmult cholmod_l_free_dense \
+  walk_descents modify_factor cholesky_solve SuiteSparseQR_C_backslash_default cholmod_l_start cholmod_l_reallocate_column cholmod_l_allocate_dense cholmod_l_copy_dense cholmod_l_sdmult cholmod_l_free_dense \
   malloc calloc realloc free
-SCHED_COMMON := $(B)/asan/sim/harness.o $(B)/asan/sim/sched.o $(B)/asan/harness/psv_sched.o \
+SCHED_COMMON := $(B)/asan/sim/harness.o $(B)/asan/sim/sched.o $(B)/asan/sim/refblas.o $(B)/asan/harness/psv_sched.o \
   $(addprefix $(B)/asan/repo/core/,$(addsuffix .o,$(CORE_SRC)))
 SCHED_ASAN_OBJS := $(SCHED_COMMON) $(addprefix $(B)/asan/repo/fitter/,$(addsuffix .o,$(FITTER_SRC)))
 SCHED_RACE_OBJS := $(SCHED_COMMON) $(B)/race/repo/fitter/cholesky_solve.o $(B)/race/repo/fitter/nnls.o \
   $(B)/asan/repo/fitter/glam.o $(B)/asan/repo/fitter/splineutil.o
 
+REFBLAS_EXPORT := $(foreach s,dgemm_ dsyrk_ dtrsm_ dgemv_ dtrsv_ dpotrf_,-Wl,--export-dynamic-symbol=$(s))
 $(B)/psv_sched.asan: $(SCHED_ASAN_OBJS)
-	$(CXX) $(SAN) -o $@ $^ $(call wrap,$(SCHED_WRAPS)) -lcfitsio $(MATHLIBS) -lpthread
+	$(CXX) $(SAN) -o $@ $^ $(REFBLAS_EXPORT) $(call wrap,$(SCHED_WRAPS)) -lcfitsio $(MATHLIBS) -lpthread
 $(B)/psv_sched.race: $(SCHED_RACE_OBJS)
-	$(CXX) $(SAN) -o $@ $^ $(call wrap,$(SCHED_WRAPS)) -lcfitsio $(MATHLIBS) -lpthread
+	$(CXX) $(SAN) -o $@ $^ $(REFBLAS_EXPORT) $(call wrap,$(SCHED_WRAPS)) -lcfitsio $(MATHLIBS) -lpthread
 sched: $(B)/psv_sched.asan $(B)/psv_sched.race
 
 -include mk/io.mk
